@@ -95,10 +95,18 @@ class Prop(BaseProp):
             n = 10 if not big else 80
             cases = [{"id": "r%s_%d" % (conc, i), "text": gen_case(rng, big), "meta": {"conc": conc}} for i in range(n)]
             out.append({"name": "recon", "cases": cases, "env": {"HF_XET_NUM_CONCURRENT_RANGE_GETS": conc}, "timeout": 900})
+        if big:
+            out += self.search_streams(rng, tier)
         return out
 
+    def search_streams(self, rng, tier):
+        # files beyond 2^32 bytes (65 terms of 64 MiB): about 45 s and 4.4 GB of scratch space per case, hence not in the quick
+        # tier; judged by the oracle (the output is compared block by block, nothing of file size is held in memory)
+        cases = [{"id": "huge_%s" % w, "text": "HUGE 65 512 131072 %s" % w, "meta": {}} for w in ("par", "seq")]
+        return [{"name": "recon", "cases": cases, "env": {"HF_XET_NUM_CONCURRENT_RANGE_GETS": "16"}, "model": False, "timeout": 1800, "shards": 1}]
+
     def nontrivial(self, stream, case, io):
-        if case["text"].count("T ") >= 2:
+        if case["text"].count("T ") >= 2 or case["text"].startswith("HUGE"):
             return hashlib.sha256(case["text"].encode()).hexdigest()
         return None
 
